@@ -150,6 +150,17 @@ structure SensorW where
   registered : Bool := false
 deriving Repr, Inhabited
 
+/-- What a constructor call creates (scenario `asset` lines, and `create` operations issued while
+the simulation is running). -/
+inductive AssetSpec where
+  | dev (d : Dev)
+  | group (gid : Nat) (devs ins outs : List Nat)
+  | maint (cap : Option Int) (value : Int)
+  | sched (tt : List (Int × Int)) (cyc : Bool)
+  | sensor (s : SensorW)
+  | cms
+deriving Inhabited
+
 /-- Scripted operations (issued from outside between steps, or from inside an event action). -/
 inductive Op where
   -- environment
@@ -183,7 +194,9 @@ inductive Op where
   -- sensors
   | setVar (k : Nat) (v : Int)
   | addSensor (c s : Nat)
-deriving Repr, DecidableEq, Inhabited
+  -- system: an asset constructed while the simulation may already be running
+  | create (spec : AssetSpec)
+deriving Inhabited
 
 structure World where
   env : Env := {}
@@ -206,6 +219,11 @@ structure World where
   svars : List Int := []
   assets : List AssetRef := []
   started : Bool := false
+  /-- ghost logs for the conservation statement (C02): leaf parts created by sources, delivered to
+  sinks, reported lost by failures.  Nothing in the model reads them. -/
+  generated : List Nat := []
+  delivered : List Nat := []
+  lost : List Nat := []
 deriving Inhabited
 
 namespace World
